@@ -189,6 +189,16 @@ func mkBin(op string, a, b *Term) *Term {
 			}
 		}
 	}
+	// a value compared with itself (`cap(ctl) != ops` right after `ctl := make(chan T, ops)`): decided for integers,
+	// strings, booleans, pointers and channels - not for floats (NaN), interfaces (may hold one) or aggregates
+	if a != nil && b != nil && a.Typ != nil && reflexiveType(a.Typ) && Same(a, b) {
+		switch op {
+		case "==", "<=", ">=":
+			return True
+		case "!=", "<", ">":
+			return False
+		}
+	}
 	// a quantity that cannot be negative compared with a constant: the index of a range loop is at least -1 before
 	// its increment (1 + index >= 0), the counter of `for range n` and any length are at least 0
 	if op == "<" || op == "<=" || op == ">" || op == ">=" {
@@ -431,4 +441,14 @@ func Rebuild(t *Term) *Term {
 		return boolT(args[0].Aux == "false")
 	}
 	return &Term{Op: t.Op, Aux: t.Aux, Args: args, Fn: t.Fn, Typ: t.Typ, Src: t.Src, Owner: t.Owner, Meth: t.Meth}
+}
+
+func reflexiveType(t types.Type) bool {
+	switch u := t.Underlying().(type) {
+	case *types.Basic:
+		return u.Info()&(types.IsInteger|types.IsString|types.IsBoolean) != 0
+	case *types.Pointer, *types.Chan:
+		return true
+	}
+	return false
 }
